@@ -150,9 +150,26 @@ func healthBaselines() (map[string][]healthRef, error) {
 				}
 				rep, err := playHealth(c, ex)
 				if err != nil {
+					// the process died or hung on well-formed reference candidates: that is for
+					// the generated scenarios to find and attribute; here the service simply gets
+					// no references from this pass, on a new process
 					c.Stop()
-					fail(s, err)
-					return
+					if c, err = svc.StartChild(nil); err != nil {
+						fail("start", err)
+						return
+					}
+					if pass == 0 {
+						best[s] = make([]healthRef, len(ex))
+					}
+					if pass == 1 {
+						for i, j := 0, len(ex)-1; i < j; i, j = i+1, j-1 {
+							ex[i], ex[j] = ex[j], ex[i]
+						}
+					}
+					for i := range ex {
+						best[s][i].Conn = ex[i]
+					}
+					continue
 				}
 				if pass == 1 {
 					for i, j := 0, len(ex)-1; i < j; i, j = i+1, j-1 {
@@ -176,7 +193,7 @@ func healthBaselines() (map[string][]healthRef, error) {
 			fail("start", err)
 			return
 		}
-		defer c.Stop()
+		defer func() { c.Stop() }()
 		healthRefs = map[string][]healthRef{}
 		for _, s := range svc.AllServices {
 			all := best[s]
@@ -195,14 +212,18 @@ func healthBaselines() (map[string][]healthRef, error) {
 				conns[i] = all[i].Conn
 			}
 			a, err := playHealth(c, conns)
-			if err != nil {
-				fail(s, err)
-				return
+			var b []svc.ConnReport
+			if err == nil {
+				b, err = playHealth(c, conns)
 			}
-			b, err := playHealth(c, conns)
 			if err != nil {
-				fail(s, err)
-				return
+				// see above: no references for this service, new process for the others
+				c.Stop()
+				if c, err = svc.StartChild(nil); err != nil {
+					fail("start", err)
+					return
+				}
+				continue
 			}
 			for i := range conns {
 				ref := healthRef{Conn: conns[i], OutLen: min(a[i].OutLen+a[i].ReplyLen, b[i].OutLen+b[i].ReplyLen), Events: min(a[i].Events, b[i].Events)}
